@@ -85,7 +85,7 @@ PLAN = {
  'C05_r3m1': [('c05', 'cached-missing|split-projection')],
  'C05_r3m2': [('c05', 'uncached-ops|cached-missing|split-projection')],
  'C06_r3m1': [('c06', 'candset-')],
- 'C06_r3m2': [('c06', 'overlap-tables')],
+ 'C06_r3m2': [('c06', 'keyed-by-attr')],
  'C07_r3m1': [('c12', 'ed-history')],
  'C07_r3m2': [('c07', 'overlap_join'), ('c05', 'uncached-ops')],
  'C08_r3m1': [('c08', 'matcher-missing'), ('c05', 'uncached-ops|cached-missing')],
